@@ -71,8 +71,10 @@ def is_ws_exc(ws, e):
 
 def std_world(seed=0, peer_cfg=None, link=None, sock=None, policy=None, choices=None, step_cap=400_000,
               host=HOST, addr=ADDR, port=80, trace=False, time_cap_s=100_000, env=None,
-              default_timeout=None):
-    """World with one listener at host:port served by a WSPeer(peer_cfg).  Returns (world, peers)."""
+              default_timeout=None, tls=False):
+    """World with one listener at host:port served by a WSPeer(peer_cfg) (behind a TLS server side presenting the 'good'
+    certificate when tls is set: the caller connects to wss:// and calls sim.tls.install() inside the world).
+    Returns (world, peers)."""
     w = World(seed=seed, policy=policy, choices=choices, net_cfg={"sock": sock or {}}, step_cap=step_cap,
               trace=trace, time_cap_s=time_cap_s, env=env, default_timeout=default_timeout)
     peers = []
@@ -81,6 +83,9 @@ def std_world(seed=0, peer_cfg=None, link=None, sock=None, policy=None, choices=
         cfg = peer_cfg(conn.index) if callable(peer_cfg) else (peer_cfg or {})
         p = WSPeer(w, cfg)
         peers.append(p)
+        if tls:
+            from .tls import TLSPeer
+            return TLSPeer(w, p, "good")
         return p
 
     w.net.add_host(host, [(_rs.AF_INET, addr)])
